@@ -113,6 +113,14 @@ class DuelingDistributionalMLP(EvolvableMLP):
             name="advantage",
         )
 
+    def get_init_dict(self) -> Dict[str, Any]:
+        """Constructor arguments of the network. `num_outputs` is the number of actions (the value
+        stream inherited from `EvolvableMLP` has `num_atoms` outputs), so that a network rebuilt from
+        its `init_dict`, e.g. by `clone()`, has the same shape."""
+        init_dict = super().get_init_dict()
+        init_dict["num_outputs"] = self.num_actions
+        return init_dict
+
     @property
     def net_config(self) -> Dict[str, Any]:
         net_config = super().net_config.copy()
